@@ -5,6 +5,8 @@ def _c19_case(c):
     p = c.split(" ")
     if p[0] in ("M", "T", "U", "L", "J", "B"):
         return {"op": p[0], "hex": p[1]}
+    if p[0] == "F":
+        return {"op": "F", "civil": " ".join(p[1:7])}
     if p[0] == "K":
         return {"op": "K", "spec": unhex(p[-1]).encode("latin-1").decode("utf-8")}
     return {"raw": c}
@@ -140,6 +142,11 @@ def _vm_goal(case, out):
     o = out.split(" ")
     if p[0] == "M":
         return "valid_media_type %s = %s" % (_vm_str(p[1]), "true" if o[0] == "1" else "false")
+    if p[0] == "F":
+        call = "%s %s %s %s %s %s" % tuple(p[1:7])
+        if o[0] == "INVALID":
+            return "civil_ok %s = false" % call
+        return "format_rfc3339_utc %s = %s" % (call, _vm_str(o[0]))
     if p[0] == "J":
         return "json_string %s = %s" % (_vm_str(p[1]), _vm_str(o[0]))
     if p[0] == "B":
@@ -172,7 +179,7 @@ def _vm_goal(case, out):
 
 def _c19_vm_sample(d, tier, coq, build):
     import os, subprocess, collections
-    quota = {"K": 250, "M": 120, "T": 120, "U": 60, "L": 60, "J": 60, "B": 40} if tier == "thorough" else {"K": 30, "M": 15, "T": 15, "U": 10, "L": 10, "J": 10, "B": 5}
+    quota = {"K": 250, "M": 120, "T": 120, "U": 60, "L": 60, "J": 60, "B": 40, "F": 40} if tier == "thorough" else {"K": 30, "M": 15, "T": 15, "U": 10, "L": 10, "J": 10, "B": 5, "F": 5}
     outs = {}
     with open(os.path.join(d, "model.txt")) as f:
         for l in f:
